@@ -296,8 +296,26 @@ def in_box(th, lim):
     return z3.And([z3.And(lim[i][0] <= th[i], th[i] <= lim[i][1]) for i in range(len(th))])
 
 
+# finitised mode (counter-model search, vacuity covers) fixes R to a generic rational matrix with no zero / equal / symmetric entries
+# and R^-1 to its exact inverse: the search is then linear.  Proof mode keeps every entry symbolic.
+_GENERIC = {1: [[2]], 2: [[2, 1], [-3, 5]], 3: [[2, 1, -1], [3, -2, 4], [1, 5, 7]]}
+
+
+def _generic_pair(D):
+    import sympy
+    M = sympy.Matrix(_GENERIC[D])
+    Mi = M.inv()
+    q = lambda x: z3.RealVal('%d/%d' % (sympy.Rational(x).p, sympy.Rational(x).q))
+    return [[q(M[i, j]) for j in range(D)] for i in range(D)], [[q(Mi[i, j]) for j in range(D)] for i in range(D)]
+
+
 class Box:
     """symbolic region of concrete dimension D: every entry of R, R^-1, c, limits is a real constant"""
+
+    def pinned(self):
+        R0, Ri0 = _generic_pair(self.D)
+        D = self.D
+        return z3.And([z3.And(self.R[i][j] == R0[i][j], self.Rinv[i][j] == Ri0[i][j]) for i in range(D) for j in range(D)])
 
     def __init__(self, D):
         self.D = D
@@ -435,6 +453,7 @@ class Contains(Contract):
             s.th = consts('theta', D)
         else:
             s.y = consts('y', D)
+            s.image = []
         return s, (b.obj(), vec(s.p)), {}
 
     def _hyps(self, s):
@@ -453,11 +472,15 @@ class Contains(Contract):
 
     def requires(self, s):
         h = self._hyps(s)
-        out = [z3.And([e for r in h.RinvR for e in r]), z3.And([e for r in h.RRinv for e in r])]
+        s.inv = [z3.And([e for r in h.RinvR for e in r]), z3.And([e for r in h.RRinv for e in r])]
+        out = list(s.inv)
         if self.case == 'region-point':
-            out += [h.box, z3.And(h.pdef)]
+            s.pdef = z3.And(h.pdef)
+            out += [h.box, s.pdef]
         else:
             out += [z3.And(h.ydef)]
+        if cur().fin is not None:
+            out.append(s.b.pinned())
         return out
 
     def snapshot(self, s):
@@ -480,7 +503,12 @@ class Contains(Contract):
                               _ssum([b.R[k][i] * b.Rinv[i][m] * s.p[m] for i in range(D)]) == (s.p[m] if k == m else 0)) for m in range(D)]
                 Dc = [ps.step('(R R^-1)[%d,%d] times c_%d' % (k, m, m), [h.RRinv[k][m]],
                               _ssum([b.R[k][i] * b.Rinv[i][m] * b.c[m] for i in range(D)]) == (b.c[m] if k == m else 0)) for m in range(D)]
-                ps.export(ps.step('(R y + c)_%d = p_%d' % (k, k), C + Dp + Dc, s.p[k] == _ssum([b.R[k][i] * s.y[i] for i in range(D)]) + b.c[k]))
+                s.image.append(ps.step('(R y + c)_%d = p_%d' % (k, k), C + Dp + Dc, s.p[k] == _ssum([b.R[k][i] * s.y[i] for i in range(D)]) + b.c[k]))
+        if vc.fin is None:
+            # proof mode: the bilinear hypotheses have done their work in the script; the body is analysed under the WEAKER path condition
+            # without them (sound: fewer assumptions), which keeps the comparisons of the body in linear arithmetic over the monomials
+            drop = set(f.get_id() for f in s.inv + ([s.pdef] if self.case == 'region-point' else []))
+            vc.pc = [f for f in vc.pc if f.get_id() not in drop]
         return {}
 
     def ensures(self, s, result):
@@ -488,9 +516,17 @@ class Contains(Contract):
         res = _as_bool(result)
         if self.case == 'region-point':
             return [('every point R theta + c with lo <= theta <= hi is reported inside', res)]
-        return [('reported inside  <=>  y = R^-1 (p - c) satisfies lo <= y <= hi', res == in_box(s.y, b.lim)),
-                ('p = R y + c (so a point reported inside is a point of the region, with witness y)',
-                 z3.And([s.p[k] == _ssum([b.R[k][i] * s.y[i] for i in range(D)]) + b.c[k] for k in range(D)]))]
+        # the second clause is the conjunction of the last steps of the proof script: it is discharged from those steps alone
+        # (they are NOT put on the path condition: products R*y next to the comparisons would only slow the first clause down)
+        vc = cur()
+        saved = vc.pc
+        vc.pc = list(s.image)
+        try:
+            vc.oblige('post[p = R y + c (so a point reported inside is a point of the region, with witness y)]',
+                      z3.And([s.p[k] == _ssum([b.R[k][i] * s.y[i] for i in range(D)]) + b.c[k] for k in range(D)]))
+        finally:
+            vc.pc = saved
+        return [('reported inside  <=>  y = R^-1 (p - c) satisfies lo <= y <= hi', res == in_box(s.y, b.lim))]
 
     def witness(self, vc, model, ob):
         ev = lambda t: str(model.eval(t, model_completion=True))
@@ -581,14 +617,826 @@ class LemmaSampleInside(Contract):
         return [('every sampled point is contained in the region (R^-1 the inverse of R)', z3.Implies(s.inv_ok, _as_bool(result)))]
 
 
+# ---------------------------------------------------------------- line_search (any dimension, any objective)
+FL = z3.Function('FL', R_, R_)          # the objective restricted to the search line: FL(o) = f(th* + o vd); uninterpreted, pure
+
+
+def _real(x):
+    t = T(x)
+    return z3.ToReal(t) if t.sort() == I_ else t
+
+
+class ProbeGhost:
+    """ghost record of the probes that observed f >= eps: whether there was one and the smallest offset of one
+    (f is pure, so "every probe at an offset <= x observed f < eps" is  not hasbad or x < minbad)"""
+
+    def __init__(self):
+        self.hasbad, self.minbad, self.hint = z3.BoolVal(False), z3.RealVal(0), None
+
+    def _vc_havoc(self, name):
+        vc = cur()
+        self.hasbad, self.minbad = vc.fresh(name + '_hasbad', B_), vc.fresh(name + '_minbad', R_)
+
+    def state(self):
+        return (self.hasbad, self.minbad)
+
+
+class LineSearch(Contract):
+    """case 'start-below' (f(th*) < eps, rep_lim >= 0: the situation of RegionConstructor.build around an accepted optimum): the full clause;
+    case 'any-start' (no assumption on f, K, rep_lim): the returned offset is positive."""
+    target = ROMC + '::line_search'
+    prop = 'C19'
+    fin = 4
+
+    def __init__(self, case):
+        self.case = case
+        self.label = case
+
+    def setup(self, vc):
+        D, K, rep_lim = z3.Ints('D K rep_lim')
+        eps, eta0 = z3.Reals('eps eta0')
+        vc.fin_bounds.extend([D, K])
+        ths, vd = SArr.fresh('th_star', (D,), 'real'), SArr.fresh('vd', (D,), 'real')
+        g = ProbeGhost()
+        s = NS(D=D, K=K, rep_lim=rep_lim, eps=eps, eta0=eta0, ths=ths.snapshot(), vd=vd.snapshot(), g=g, ths_arg=ths, vd_arg=vd)
+        below = self.case == 'start-below'
+        if below:
+            vc.fin_bounds.append(rep_lim)
+
+        def f(arg):
+            if not below:
+                return SReal(vc.fresh('f', R_))
+            a = arg.snapshot()
+            o = g.hint                        # ghost offset of this probe (set at the loop head that precedes every probe)
+            if o is None:
+                raise OutOfSubset('objective called outside the search loop')
+            vc.oblige('call-pre[the probed point is th* + offset vd]', self.line(s, a, o))
+            r = FL(o)
+            bad = r >= eps
+            g.minbad = z3.If(bad, z3.If(z3.And(g.hasbad, g.minbad <= o), g.minbad, o), g.minbad)
+            g.hasbad = z3.Or(g.hasbad, bad)
+            vc.libcall('f', dict(offset=o, value=r))
+            return SReal(r)
+        return s, (f, ths, vd, SReal(eps)), dict(K=SInt(K), eta=SReal(eta0), rep_lim=SInt(rep_lim))
+
+    @staticmethod
+    def line(s, th, o):
+        return z3.And(th.shape[0] == s.D, forall_range(0, s.D, lambda j: th.at(j) == s.ths.at(j) + o * s.vd.at(j), 'j'))
+
+    def requires(self, s):
+        out = [s.D >= 0, s.eta0 > 0]
+        if self.case == 'start-below':
+            out += [s.rep_lim >= 0, FL(z3.RealVal(0)) < s.eps]
+        return out
+
+    # loop 0: for i in range(K)           loop 1: while f(th) < eps and rep <= rep_lim
+    def _outer(self, s, l):
+        eta, off, g = _real(l.eta), _real(l.offset), s.g
+        out = [('eta > 0', eta > 0)]
+        if self.case == 'start-below':
+            out += [('th = th* + offset vd', self.line(s, l.th, off)),
+                    ('offset >= 0 and f < eps was observed there', z3.And(off >= 0, FL(off) < s.eps)),
+                    ('the only probe that observed f >= eps so far was two current steps ahead',
+                     z3.Implies(g.hasbad, z3.And(g.minbad == off + 2 * eta, FL(g.minbad) >= s.eps)))]
+        return out
+
+    def _inner(self, s, l):
+        if self.case != 'start-below':
+            return [('rep >= 0', T(l.rep) >= 0)]
+        eta, off, rep, g, e = _real(l.eta), _real(l.offset), T(l.rep), s.g, l.entry
+        return [('rep >= 0', rep >= 0),
+                ('th = th* + offset vd', self.line(s, l.th, off)),
+                ('no step yet: still at the entry offset', z3.And(off >= e.off, z3.Implies(rep == 0, off == e.off))),
+                ('after a step: the previous offset is at or beyond the entry offset and f < eps was observed there',
+                 z3.Implies(rep >= 1, z3.And(off - eta >= e.off, FL(off - eta) < s.eps))),
+                ('no probe observed f >= eps inside this loop', z3.And(g.hasbad == e.hasbad, g.minbad == e.minbad)),
+                ('the earlier bad probe is 0, 1 or 2 steps ahead', z3.Implies(g.hasbad, z3.Or(g.minbad == off, g.minbad == off + eta, g.minbad == off + 2 * eta)))]
+
+    @property
+    def loops(self):
+        def hint(s, l):
+            s.g.hint = _real(l.offset)
+        fresh = {'offset': lambda why: SReal(cur().fresh('offset', R_))}
+        return {0: Loop(inv=self._outer, modifies=lambda s, l: [s.g], fresh=fresh),
+                1: Loop(inv=self._inner, modifies=lambda s, l: [s.g], fresh=fresh, on_head=hint,
+                        snapshot=lambda s, l: dict(off=_real(l.offset), hasbad=s.g.hasbad, minbad=s.g.minbad))}
+
+    def ensures(self, s, result):
+        res = _real(result)
+        out = [('the returned offset is positive', res > 0)]
+        if self.case == 'start-below':
+            g = s.g
+            eta_last = _real(s.rt.loopstate[0]['head'].eta)
+            out.append(('f < eps was observed at the returned offset and at every probed offset up to it, or (degenerate branch) the result is the last step size',
+                        z3.Or(z3.And(FL(res) < s.eps, z3.Implies(g.hasbad, res < g.minbad)), res == eta_last)))
+            out.append(('the arguments are not modified', z3.And(self.line(s, s.ths_arg, z3.RealVal(0)), forall_range(0, s.D, lambda j: s.vd_arg.at(j) == s.vd.at(j), 'j'))))
+        return out
+
+    def witness(self, vc, model, ob):
+        ev = lambda t: str(model.eval(t, model_completion=True))
+        return dict(function='line_search', eps=ev(z3.Real('eps')), eta=ev(z3.Real('eta0')), K=ev(z3.Int('K')), rep_lim=ev(z3.Int('rep_lim')))
+
+
+# ---------------------------------------------------------------- RegionConstructor.build (assembly; D = 1, 2, 3)
+class Build(Contract):
+    """the box is assembled from the rotation (numpy.linalg, assumed: _find_rotation_vector is a stub returning an arbitrary matrix), the optimum as
+    centre and, per direction d, the limits [-line_search(-v_d), +line_search(v_d)]; line_search is the callee under contract LineSearch[any-start]
+    (result > 0), which is exactly what NDimBoundingBox / _secure_limits need (lo <= 0 <= hi)"""
+    target = ROMC + '::RegionConstructor.build'
+    prop = 'C19'
+    fin = 4
+
+    def __init__(self, D):
+        self.D = D
+        self.label = 'D%d' % D
+
+    def setup(self, vc):
+        D = self.D
+        eps, eta = z3.Reals('eps_region eta')
+        K, rep_lim = z3.Ints('K rep_lim')
+        x_min = vec(consts('x_min', D))
+        Rm = consts('R', D, D)
+        rot = mat(Rm)
+        hess = SArr.fresh('hess_appr', (D, D), 'real')
+        func = object()
+        s = NS(eps=eps, eta=eta, K=K, rep_lim=rep_lim, Rm=Rm, xm=consts('x_min', D), calls=[], boxes=[], func=func)
+        LS = z3.Function('LS', I_, R_)
+        s.LS = LS
+
+        def find_rotation(self_, h):
+            cur().oblige('call-pre[_find_rotation_vector receives the hessian approximation of the optimisation result]', z3.BoolVal(h is hess))
+            return rot
+
+        def line_search(f, th_star, vd, eps_, K_, eta_, rep_lim_):
+            vc_ = cur()
+            vc_.oblige('call-pre[line_search: eta > 0]', _real(eta_) > 0)        # precondition of contract LineSearch[any-start]
+            k = len(s.calls)
+            s.calls.append(dict(f=f, th=th_star.snapshot(), vd=vd.snapshot(), eps=_real(eps_), K=T(K_), eta=_real(eta_), rep_lim=T(rep_lim_)))
+            vc_.assume(LS(k) > 0)                                                # its postcondition
+            return SReal(LS(k))
+
+        class BoxStub:
+            _vc_models = None
+
+            def __init__(self_, rotation, center, limits):
+                lim = limits.snapshot()
+                cur().oblige('call-pre[NDimBoundingBox: limits of shape (D, 2) with lo <= 0 <= hi]',
+                             z3.And([lim.shape[0] == D, lim.shape[1] == 2] + [z3.And(lim.at(d, 0) <= 0, lim.at(d, 1) >= 0) for d in range(D)]))
+                self_.rotation, self_.center, self_.limits = rotation.snapshot(), center.snapshot(), lim
+                s.boxes.append(self_)
+        s.env = dict(line_search=line_search, NDimBoundingBox=BoxStub, range=conc_range, np=np_module(array=array_spec))
+        res = make_object('RomcOptimisationResult', attrs=dict(x_min=x_min, hess_appr=hess))
+        self_ = make_object('RegionConstructor', attrs=dict(res=res, func=func, dim=D, eps_region=SReal(eps), K=SInt(K), eta=SReal(eta), rep_lim=SInt(rep_lim)),
+                            methods=dict(_find_rotation_vector=find_rotation))
+        vc._s19b = s
+        return s, (self_,), {}
+
+    def env(self, vc):
+        return vc._s19b.env
+
+    def requires(self, s):
+        return [s.eta > 0]
+
+    def ensures(self, s, result):
+        D = self.D
+        if not (isinstance(result, list) and len(result) == 1 and len(s.boxes) == 1 and result[0] is s.boxes[0] and len(s.calls) == 2 * D):
+            return [('one box, two line searches per direction', z3.BoolVal(False))]
+        b = result[0]
+        facts = []
+        for d in range(D):
+            neg, pos = s.calls[2 * d], s.calls[2 * d + 1]
+            for c, sign in ((neg, -1), (pos, 1)):
+                facts.append(z3.BoolVal(c['f'] is s.func))
+                facts.append(z3.And(c['eps'] == s.eps, c['K'] == s.K, c['eta'] == s.eta, c['rep_lim'] == s.rep_lim))
+                facts.append(z3.And([z3.And(c['th'].at(k) == s.xm[k], c['vd'].at(k) == sign * s.Rm[k][d]) for k in range(D)]))
+            facts.append(z3.And(b.limits.at(d, 0) == -s.LS(2 * d), b.limits.at(d, 1) == s.LS(2 * d + 1)))
+        return [('rotation = the matrix of search directions, centre = the optimum',
+                 z3.And([b.center.at(k) == s.xm[k] for k in range(D)] + [b.rotation.at(i, j) == s.Rm[i][j] for i in range(D) for j in range(D)])),
+                ('limits of direction d = [-line_search(-v_d), +line_search(v_d)], searched from the optimum with the configured eps, K, eta, rep_lim', z3.And(facts))]
+
+    def witness(self, vc, model, ob):
+        return dict(function='build', D=self.D)
+
+
+# ---------------------------------------------------------------- RomcPosterior: counting loops, density, weights
+CNT = z3.Function('CNT', I_, I_)            # CNT(k) = |{ i < k : pred(i) }|
+Fv = z3.Function('F', I_, R_)               # F(i)  = distance of problem i at the evaluated point (pure)
+INr = z3.Function('IN', I_, B_)             # IN(i) = region i contains the evaluated point
+PR = z3.Real('prior_pdf')                   # prior density at the evaluated point
+
+
+def count_def(n, pred):
+    return z3.And(CNT(0) == 0, forall_range(0, n, lambda i: CNT(i + 1) == CNT(i) + z3.If(pred(i), 1, 0), 'i'))
+
+
+def count_inst(pred, k):
+    return CNT(k + 1) == CNT(k) + z3.If(pred(k), 1, 0)
+
+
+def same_point(arg, D, co):
+    if not (isinstance(arg, SArr) and arg.ndim == 1):
+        return z3.BoolVal(False)
+    a = arg.snapshot()
+    return z3.And(a.shape[0] == D, forall_range(0, D, lambda k: a.at(k) == co(k), 'k'))
+
+
+class Seq(Sym):
+    """python list of n opaque objects (objective functions, regions): len and indexing; `make(i)` builds the stub of element i"""
+
+    def __init__(self, n, make, what):
+        self.n, self.make, self.what = n, make, what
+        self.t = None
+
+    def _vc_len(self):
+        return SInt(self.n)
+
+    def __getitem__(self, i):
+        i = T(i)
+        cur().oblige('call-pre[index in range: %s]' % self.what, z3.And(0 <= i, i < self.n))
+        return self.make(i)
+
+
+class PriorStub:
+    """ModelPrior.pdf on a (1, D) batch: ONE density value per row, i.e. an array of shape (1,) (assumed, sanity-tested on the real class)"""
+
+    def __init__(self, is_point, value):
+        self.is_point, self.value = is_point, value
+
+    def pdf(self, x):
+        vc = cur()
+        if not (isinstance(x, SArr) and x.ndim == 2):
+            raise OutOfSubset('prior.pdf on something else than a 2-D batch')
+        xs = x.snapshot()
+        row = SArr(Cell(lambda k: xs.at(0, k), (xs.shape[1],), 'real'))
+        vc.oblige('call-pre[prior.pdf receives the evaluated point as a batch of one row]', z3.And(xs.shape[0] == 1, self.is_point(row)))
+        v = self.value()
+        return SArr(Cell(lambda i: v, (z3.IntVal(1),), 'real'))
+
+
+class _Counting(Contract):
+    prop = 'C19'
+    fin = 4
+    uses_regions = uses_funcs = False
+
+    def pred(self, s):
+        raise NotImplementedError
+
+    def setup(self, vc):
+        n, D = z3.Ints('n D')
+        eps = z3.Real('eps_cutoff')
+        vc.fin_bounds.extend([n, D])
+        theta = SArr.fresh('theta', (D,), 'real')
+        s = NS(n=n, D=D, eps=eps, theta=theta)
+
+        def func(i):
+            def f(arg):
+                cur().oblige('call-pre[the objective is evaluated at theta]', z3.BoolVal(arg is theta))
+                return SReal(Fv(i))
+            return f
+
+        def region(i):
+            def contains(self_, arg):
+                cur().oblige('call-pre[contains is evaluated at theta]', z3.BoolVal(arg is theta))
+                return SBool(INr(i))
+            return make_object('NDimBoundingBox', methods=dict(contains=contains))
+        # class invariant of RomcPosterior: one objective and one region per accepted problem
+        s.self = make_object('RomcPosterior', attrs=dict(funcs=Seq(n, func, 'funcs'), regions=Seq(n, region, 'regions'), eps_cutoff=SReal(eps)))
+        return s, (s.self, theta), {}
+
+    def requires(self, s):
+        return [s.n >= 0, s.D >= 0, count_def(s.n, self.pred(s))]
+
+    @property
+    def loops(self):
+        return {0: Loop(inv=lambda s, l: [('nof_inside = |{ i < k : problem i counts }|', T(l.nof_inside) == CNT(l.it.index))],
+                        lemmas=lambda s, l0, l1: [count_inst(self.pred(s), l0.it.index)])}
+
+    def ensures(self, s, result):
+        return [(self.clause, T(result) == CNT(s.n))]
+
+    def witness(self, vc, model, ob):
+        ev = lambda t: str(model.eval(t, model_completion=True))
+        n = int(ev(z3.Int('n')))
+        return dict(function=self.target.split('.')[-1], n=n, eps=ev(z3.Real('eps_cutoff')), F=[ev(Fv(z3.IntVal(i))) for i in range(max(n, 0))],
+                    IN=[ev(INr(z3.IntVal(i))) for i in range(max(n, 0))])
+
+
+class SumOverIndicators(_Counting):
+    target = POST + '::RomcPosterior._sum_over_indicators'
+    clause = 'result = number of problems whose distance at theta is within the cut-off'
+
+    def pred(self, s):
+        return lambda i: Fv(i) <= s.eps
+
+
+class SumOverRegions(_Counting):
+    target = POST + '::RomcPosterior._sum_over_regions'
+    clause = 'result = number of regions that contain theta'
+
+    def pred(self, s):
+        return lambda i: INr(i)
+
+
+class SumOverRegionsIndicators(_Counting):
+    target = POST + '::RomcPosterior._sum_over_regions_indicators'
+    clause = 'result = number of problems whose region contains theta and whose distance at theta is within the cut-off'
+
+    def pred(self, s):
+        return lambda i: z3.And(INr(i), Fv(i) <= s.eps)
+
+
+class LemmaCountBounds(Contract):
+    """0 <= CNT(n) <= n (the count is a count)"""
+    target = '@verif/lemmas/c19_lemmas.py::lemma_count_bounds'
+    prop = 'C19'
+    fin = 4
+
+    def setup(self, vc):
+        n = z3.Int('n')
+        vc.fin_bounds.append(n)
+        P = z3.Function('P', I_, B_)
+        s = NS(n=n, P=P)
+
+        def unfold_count(k):
+            k = T(k)
+            vc.oblige('call-pre[unfold_count at 0 <= k < n]', z3.And(0 <= k, k < n))
+            vc.assume(count_inst(lambda i: P(i), k))
+        s.unfold = unfold_count
+        return s, (SInt(n),), {}
+
+    def env(self, vc):
+        return dict(unfold_count=lambda k: self._s.unfold(k))
+
+    def requires(self, s):
+        self._s = s
+        return [s.n >= 0, count_def(s.n, lambda i: s.P(i))]
+
+    loops = {0: Loop(inv=lambda s, l: [z3.And(T(l.k) >= 0, T(l.k) <= s.n), z3.And(CNT(T(l.k)) >= 0, CNT(T(l.k)) <= T(l.k))])}
+
+    def ensures(self, s, result):
+        return [('0 <= count <= n', z3.And(CNT(s.n) >= 0, CNT(s.n) <= s.n))]
+
+
+CNT_I, CNT_RI = z3.Int('count_indicators'), z3.Int('count_regions_indicators')
+
+
+class PdfUnnormSinglePoint(Contract):
+    target = POST + '::RomcPosterior._pdf_unnorm_single_point'
+    prop = 'C19'
+    fin = 4
+
+    def __init__(self, surrogate):
+        self.surrogate = surrogate
+        self.label = 'surrogate' if surrogate else 'actual'
+
+    def setup(self, vc):
+        D = z3.Int('D')
+        vc.fin_bounds.append(D)
+        theta = SArr.fresh('theta', (D,), 'real')
+        s = NS(D=D, theta=theta)
+        th0 = theta.snapshot()
+
+        def counter(value, name):
+            def m(self_, arg):
+                cur().oblige('call-pre[%s is evaluated at theta]' % name, z3.BoolVal(arg is theta))
+                return SInt(value)
+            return m
+        prior = PriorStub(lambda row: same_point(row, D, lambda k: th0.at(k)), lambda: PR)
+        s.self = make_object('RomcPosterior', attrs=dict(prior=prior, surrogate_used=self.surrogate),
+                             methods=dict(_sum_over_indicators=counter(CNT_I, '_sum_over_indicators'),             # contract SumOverIndicators
+                                          _sum_over_regions_indicators=counter(CNT_RI, '_sum_over_regions_indicators')))   # contract SumOverRegionsIndicators
+        return s, (s.self, theta), {}
+
+    def requires(self, s):
+        return [s.D >= 1]
+
+    def ensures(self, s, result):
+        cnt = CNT_RI if self.surrogate else CNT_I
+        what = 'whose region contains the point and whose distance is within the cut-off' if self.surrogate else 'whose distance is within the cut-off'
+        return [('unnormalised density = prior density x number of accepted problems ' + what, _real(result) == PR * z3.ToReal(cnt))]
+
+    def witness(self, vc, model, ob):
+        return dict(function='_pdf_unnorm_single_point', surrogate_used=self.surrogate, dim=2)
+
+
+# ---------------------------------------------------------------- sample weights: python lists grown in loops
+class RealList(Sym):
+    """python list of numbers, append-only: length n and element function"""
+
+    def __init__(self, n, elt):
+        self.n, self.elt = n, elt
+        self.t = None
+
+    @staticmethod
+    def fresh(name):
+        vc = cur()
+        f = vc.fresh_fn(name, I_, R_)
+        n = vc.fresh_int(name + '_len', size=True)
+        return RealList(n, lambda i: f(i))
+
+    def append(self, v):
+        n0, old, t = self.n, self.elt, _real(v)
+        self.elt = lambda i: z3.If(i == n0, t, old(i))
+        self.n = n0 + 1
+
+    def _vc_len(self):
+        return SInt(self.n)
+
+
+class OpaqueList(Sym):
+    """append-only python list whose contents the property does not speak about (the flat list of distances)"""
+
+    def __init__(self):
+        self.t = None
+
+    def append(self, v):
+        pass
+
+
+class DrawsArr(SArr):
+    """the (n2, D) array returned by regions[i].sample: TH(i, ., .)"""
+    __slots__ = ('region',)
+
+
+class ArrList(Sym):
+    """python list of arrays of draws, append-only: entry t holds the draws of region src(t)"""
+
+    def __init__(self, n, src, rows, cols):
+        self.n, self.src, self.rows, self.cols = n, src, rows, cols
+        self.t = None
+
+    @staticmethod
+    def fresh(name, rows, cols):
+        vc = cur()
+        f = vc.fresh_fn(name + '_src', I_, I_)
+        return ArrList(vc.fresh_int(name + '_len', size=True), lambda a: f(a), rows, cols)
+
+    def append(self, a):
+        if not isinstance(a, DrawsArr):
+            raise OutOfSubset('list of draws: appended %s' % type(a).__name__)
+        cur().oblige('call-pre[np.array of the list needs equal shapes]', z3.And(a.shape[0] == self.rows, a.shape[1] == self.cols))
+        n0, old, reg = self.n, self.src, a.region
+        self.src = lambda t: z3.If(t == n0, reg, old(t))
+        self.n = n0 + 1
+
+
+class ListList(Sym):
+    """python list of lists of numbers: rows are appended empty and then grown through w[i].append(x)"""
+
+    def __init__(self, n, rowlen, elt):
+        self.n, self.rowlen, self.elt = n, rowlen, elt
+        self.t = None
+
+    @staticmethod
+    def fresh(name):
+        vc = cur()
+        f, g = vc.fresh_fn(name, I_, I_, R_), vc.fresh_fn(name + '_rowlen', I_, I_)
+        return ListList(vc.fresh_int(name + '_len', size=True), lambda a: g(a), lambda a, b: f(a, b))
+
+    def append(self, x):
+        if not (isinstance(x, list) and not x):
+            raise OutOfSubset('list of lists: appended something else than []')
+        n0, old = self.n, self.rowlen
+        self.rowlen = lambda a: z3.If(a == n0, 0, old(a))
+        self.n = n0 + 1
+
+    def __getitem__(self, i):
+        i = T(i)
+        cur().oblige('call-pre[index in range: list of rows]', z3.And(0 <= i, i < self.n))
+        return _Row(self, i)
+
+
+class _Row:
+    def __init__(self, L, i):
+        self.L, self.i = L, i
+
+    def append(self, v):
+        L, i, t = self.L, self.i, _real(v)
+        c, oldl, olde = L.rowlen(i), L.rowlen, L.elt
+        L.elt = lambda a, b: z3.If(z3.And(a == i, b == c), t, olde(a, b))
+        L.rowlen = lambda a: z3.If(a == i, c + 1, oldl(a))
+
+
+def array_spec(x, dtype=None):
+    """np.array of the list proxies above (numpy: equal-length rows give a 2-D array, an empty list a 1-D array of length 0)"""
+    vc = cur()
+    if isinstance(x, RealList):
+        e, n = x.elt, x.n
+        return SArr(Cell(lambda i: e(i), (n,), 'real'))
+    if isinstance(x, OpaqueList):
+        return SArr.fresh('flat', (vc.fresh_int('flat_len', nonneg=True, size=True),), 'real')
+    if isinstance(x, (ArrList, ListList)):
+        if vc.branch(x.n == 0):
+            return SArr(Cell(lambda i: z3.RealVal(0), (z3.IntVal(0),), 'real'))
+        if isinstance(x, ArrList):
+            src = x.src
+            return SArr(Cell(lambda a, r, k: TH3(src(a), r, k), (x.n, x.rows, x.cols), 'real'))
+        e, rl = x.elt, x.rowlen
+        vc.oblige('call-pre[np.array: rows of equal length]', forall_range(0, x.n, lambda a: rl(a) == rl(0), 'a'))
+        return SArr(Cell(lambda a, b: e(a, b), (x.n, rl(0)), 'real'))
+    return npspec.array(x, dtype)
+
+
+def weight(ind, pr, q):
+    """[distance below the cut-off] * prior density / region density if the region density is positive, else 0"""
+    return z3.If(q > 0, z3.ToReal(z3.If(ind, 1, 0)) * pr / q, 0)
+
+
+QJ, FJ, PJ = z3.Function('Q', I_, R_), z3.Function('Fd', I_, R_), z3.Function('P', I_, R_)      # region density, distance, prior density at the j-th draw
+
+
+def _as_reallist(L, name):
+    if isinstance(L, list):
+        if L:
+            raise OutOfSubset('%s is not empty at loop entry' % name)
+        return RealList(z3.IntVal(0), lambda i: z3.RealVal(0))
+    if not isinstance(L, RealList):
+        raise OutOfSubset('%s is a %s' % (name, type(L).__name__))
+    return L
+
+
+class WorkerComputeWeight(Contract):
+    target = POST + '::RomcPosterior._worker_compute_weight'
+    prop = 'C19'
+    fin = 4
+
+    def env(self, vc):
+        return dict(np=np_module(array=array_spec))
+
+    def setup(self, vc):
+        n2, D = z3.Ints('n2 D')
+        eps = z3.Real('eps_cutoff')
+        vc.fin_bounds.extend([n2, D])
+        theta = SArr.fresh('theta', (n2, D), 'real')
+        th0 = theta.snapshot()
+        s = NS(n2=n2, D=D, eps=eps, theta=theta, j=None)
+        at_draw = lambda arg: same_point(arg, D, lambda k: th0.at(s.j, k))
+
+        def pdf(self_, arg):
+            cur().oblige('call-pre[region.pdf is evaluated at the j-th draw]', at_draw(arg))
+            return SReal(QJ(s.j))
+
+        def func(arg):
+            cur().oblige('call-pre[the objective is evaluated at the j-th draw]', at_draw(arg))
+            return SReal(FJ(s.j))
+        region = make_object('NDimBoundingBox', methods=dict(pdf=pdf))
+        prior = PriorStub(at_draw, lambda: PJ(s.j))
+        args = (SInt(z3.Int('i')), theta, region, prior, func, SReal(eps), SInt(n2))
+        return s, (make_object('RomcPosterior'), args), {}
+
+    def requires(self, s):
+        return [s.n2 >= 0, s.D >= 1]
+
+    def _w(self, s, j):
+        return weight(FJ(j) < s.eps, PJ(j), QJ(j))
+
+    def _inv(self, s, l):
+        w, d = _as_reallist(l.w, 'w'), _as_reallist(l.distances, 'distances')
+        k = l.it.index
+        return [('one weight and one distance per draw so far', z3.And(w.n == k, d.n == k)),
+                ('each weight = [dist < eps] * prior / q if q > 0 else 0', forall_range(0, k, lambda t: w.elt(t) == self._w(s, t), 't')),
+                ('distances in order', forall_range(0, k, lambda t: d.elt(t) == FJ(t), 't'))]
+
+    @property
+    def loops(self):
+        def hint(s, l):
+            s.j = l.it.index
+        L = Loop(inv=self._inv, fresh={'w': lambda why: RealList.fresh('w'), 'distances': lambda why: RealList.fresh('distances')}, on_head=hint)
+        L.rebind = ('w', 'distances')
+        return {0: L}
+
+    def ensures(self, s, result):
+        if not (isinstance(result, tuple) and len(result) == 2 and isinstance(result[0], RealList) and isinstance(result[1], RealList)):
+            return [('(weights, distances)', z3.BoolVal(False))]
+        w, d = result
+        return [('weight of draw j = [dist_j < eps] * prior(theta_j) / q(theta_j) if q(theta_j) > 0 else 0', z3.And(w.n == s.n2, forall_range(0, s.n2, lambda t: w.elt(t) == self._w(s, t), 't'))),
+                ('distances of the draws, in order', z3.And(d.n == s.n2, forall_range(0, s.n2, lambda t: d.elt(t) == FJ(t), 't')))]
+
+    def witness(self, vc, model, ob):
+        return dict(function='_worker_compute_weight', dim=2)
+
+
+TH3 = z3.Function('TH', I_, I_, I_, R_)                  # TH(i, j, k): k-th coordinate of the j-th draw of region i
+Q2, F2, P2 = z3.Function('Q2', I_, I_, R_), z3.Function('F2', I_, I_, R_), z3.Function('P2', I_, I_, R_)
+
+
+class PosteriorSample(Contract):
+    """sequential path (parallelize is False); any number of regions N and draws n2"""
+    target = POST + '::RomcPosterior.sample'
+    prop = 'C19'
+    fin = 3
+
+    def env(self, vc):
+        return dict(np=np_module(array=array_spec))
+
+    def setup(self, vc):
+        N, n2, D = z3.Ints('N n2 D')
+        eps = z3.Real('eps_cutoff')
+        vc.fin_bounds.extend([N, n2, D])
+        s = NS(N=N, n2=n2, D=D, eps=eps, i=None, j=None)
+
+        def region(i):
+            def sample(self_, n, seed=None):
+                cur().oblige('call-pre[region.sample is asked for n2 draws]', T(n) == n2)
+                a = DrawsArr(Cell(lambda r, k: TH3(i, r, k), (n2, D), 'real'))
+                a.region = i
+                return a
+
+            def pdf(self_, arg):
+                cur().oblige('call-pre[region i evaluates its density at its own j-th draw]', same_point(arg, D, lambda k: TH3(i, s.j, k)))
+                return SReal(Q2(i, s.j))
+            return make_object('NDimBoundingBox', methods=dict(sample=sample, pdf=pdf))
+
+        def func(i):
+            def f(arg):
+                cur().oblige('call-pre[objective i is evaluated at the j-th draw of region i]', same_point(arg, D, lambda k: TH3(i, s.j, k)))
+                return SReal(F2(i, s.j))
+            return f
+        prior = PriorStub(lambda row: same_point(row, D, lambda k: TH3(s.i, s.j, k)), lambda: P2(s.i, s.j))
+        s.self = make_object('RomcPosterior', attrs=dict(regions=Seq(N, region, 'regions'), funcs=Seq(N, func, 'funcs'), prior=prior,
+                                                         eps_cutoff=SReal(eps), parallelize=False))
+        return s, (s.self, SInt(n2)), dict(seed=vc.fork_values('seed', [None, SInt(z3.Int('seed'))]))
+
+    def requires(self, s):
+        return [s.N >= 0, s.n2 >= 0, s.D >= 1]
+
+    def _w(self, s, i, j):
+        return weight(F2(i, j) < s.eps, P2(i, j), Q2(i, j))
+
+    def _inv0(self, s, l):
+        L = l.theta
+        if isinstance(L, list):
+            if L:
+                raise OutOfSubset('theta not empty at loop entry')
+            L = ArrList(z3.IntVal(0), lambda a: z3.IntVal(0), s.n2, s.D)
+        k = l.it.index
+        return [('one entry per region visited so far', L.n == k),
+                ('entry t holds the draws of region t', forall_range(0, k, lambda a: L.src(a) == a, 'a'))]
+
+    def _rows_done(self, s, w, upto):
+        return forall_range(0, upto, lambda a: z3.And(w.rowlen(a) == s.n2, forall_range(0, s.n2, lambda c: w.elt(a, c) == self._w(s, a, c), 'c')), 'a')
+
+    def _inv1(self, s, l):
+        w = l.w
+        if isinstance(w, list):
+            if w:
+                raise OutOfSubset('w not empty at loop entry')
+            w = ListList(z3.IntVal(0), lambda a: z3.IntVal(0), lambda a, b: z3.RealVal(0))
+        k = l.it.index
+        return [('one row per region visited so far', w.n == k), ('the rows are complete rows of weights', self._rows_done(s, w, k))]
+
+    def _inv2(self, s, l):
+        w, i, k = l.w, T(l.i), l.it.index
+        return [('one row per region up to the current one', w.n == i + 1), ('rows of the earlier regions are complete', self._rows_done(s, w, i)),
+                ('the row of region i has one entry per draw so far', w.rowlen(i) == k),
+                ('which are the weights of its first j draws', forall_range(0, k, lambda c: w.elt(i, c) == self._w(s, i, c), 'c'))]
+
+    @property
+    def loops(self):
+        def hint_i(s, l):
+            s.i = l.it.index
+
+        def hint_j(s, l):
+            s.j = l.it.index
+        L0 = Loop(inv=self._inv0, fresh={'theta': lambda why: ArrList.fresh('theta', cur()._s19.n2, cur()._s19.D)})
+        L0.rebind = ('theta',)
+        fr = {'w': lambda why: ListList.fresh('w'), 'distances': lambda why: OpaqueList()}
+        L1 = Loop(inv=self._inv1, fresh=fr, on_head=hint_i)
+        L1.rebind = ('w', 'distances')
+        L2 = Loop(inv=self._inv2, fresh=fr, on_head=hint_j)
+        L2.rebind = ('w', 'distances')
+        return {0: L0, 1: L1, 2: L2}
+
+    def snapshot(self, s):
+        cur()._s19 = s
+        return {}
+
+    def ensures(self, s, result):
+        if not (isinstance(result, tuple) and len(result) == 3 and all(isinstance(r, SArr) for r in result)):
+            return [('(samples, weights, distances)', z3.BoolVal(False))]
+        th, w, d = result
+        if th.ndim == 1 and w.ndim == 1:
+            return [('no region: empty results', z3.And(s.N == 0, th.shape[0] == 0, w.shape[0] == 0))]
+        if not (th.ndim == 3 and w.ndim == 2):
+            return [('samples (N, n2, D) and weights (N, n2)', z3.BoolVal(False))]
+        return [('samples[i, j] is the j-th draw of region i',
+                 z3.And(th.shape[0] == s.N, th.shape[1] == s.n2, th.shape[2] == s.D,
+                        forall_range(0, s.N, lambda a: forall_range(0, s.n2, lambda r: forall_range(0, s.D, lambda c: th.at(a, r, c) == TH3(a, r, c), 'c'), 'r'), 'a'))),
+                ('weight[i, j] = [f_i(theta_ij) < eps] * prior(theta_ij) / q_i(theta_ij) if q_i(theta_ij) > 0 else 0',
+                 z3.And(w.shape[0] == s.N, w.shape[1] == s.n2,
+                        forall_range(0, s.N, lambda a: forall_range(0, s.n2, lambda c: w.at(a, c) == self._w(s, a, c), 'c'), 'a')))]
+
+    def witness(self, vc, model, ob):
+        return dict(function='sample', dim=2)
+
+
 CONTRACTS = ([SecureLimits(), ComputeVolume(), LemmaProdPositive(), Pdf()]
              + [Sample(D) for D in DIMS] + [Contains(D, c) for D in DIMS for c in ('region-point', 'any-point')]
-             + [LemmaSampleInside(D) for D in DIMS])
+             + [LemmaSampleInside(D) for D in DIMS]
+             + [LineSearch('start-below'), LineSearch('any-start')] + [Build(D) for D in DIMS]
+             + [SumOverIndicators(), SumOverRegions(), SumOverRegionsIndicators(), LemmaCountBounds(), PdfUnnormSinglePoint(False), PdfUnnormSinglePoint(True),
+                WorkerComputeWeight(), PosteriorSample()])
 
-TRUSTED_BASE = []
-ASSUMPTIONS = []
-NOT_PROVED = []
+TRUSTED_BASE = ['pyvc engine: proxies, loop cutting, numpy / builtins spec tables (real mode: floats are reals; math.isclose read as its documented formula)',
+                'numpy.dot = sum of products, numpy.prod = finite product, numpy.concatenate / transpose / broadcasting as in the spec table (sanity-tested)',
+                'scipy.stats.uniform(loc, scale).rvs(size=(n, 1)): n values in [loc, loc + scale] (sanity-tested); nothing assumed about the distribution or the seed',
+                'numpy.linalg.inv: R^-1 R = R R^-1 = I for the full-rank R accepted by the constructor (sanity-tested); numpy.linalg in _find_rotation_vector is not analysed',
+                'ModelPrior.pdf on a (1, D) batch returns one value per row, shape (1,) (sanity-tested on the real class; its value is C08\'s subject)',
+                'float() of a 1-D array raises TypeError under the installed numpy (engine spec pyspec.vc_float; sanity-tested each run)',
+                'objective functions are pure (same point, same value); region / prior / objective stubs stand for callees under their own contracts']
+ASSUMPTIONS = ['A-REAL: floats are mathematical reals. In floats a draw on a face of the box can be reported outside after the rotation round trip; the bounded stand-in uses a 1e-9 tolerance there',
+               'A-INT: integers are mathematical', 'A-LOG: logging and progress-bar calls have no effect',
+               'sample / contains / build: all entries symbolic, dimension 1, 2 or 3 (dimension bound 3 for the linear-algebra clauses; the bounded stand-in covers dimension 4)',
+               'line_search full clause under f(th*) < eps and rep_lim >= 0 (the call site: a region is built around an accepted optimum); without them only positivity of the result is proved',
+               'termination of line_search is not proved (it is bounded by K * (rep_lim + 2) probes by inspection)',
+               'RomcPosterior class invariant: one objective and one region per accepted problem (len(funcs) == len(regions)); sample: sequential path (parallelize is False); '
+               'the multiprocessing path maps _worker_compute_weight, which is under contract, over the regions']
+NOT_PROVED = ['"density integrates to one" (title): the integral of pdf = 1[contains]/volume over R^D is vol(R.B + c)/prod(widths) = |det R|; it is one iff |det R| = 1 '
+              '(change of variables, paper lemma in the module docstring of bounded/c19.py is NOT mechanised); NDimBoundingBox only asserts full rank',
+              '_find_rotation_vector returns a full-rank matrix of search directions: numpy.linalg (eig, matrix_rank), assumed',
+              'samples are uniformly distributed in the region (not claimed by the property; note: sample() passes the SAME seed to every dimension)']
 
 
 def sanity():
-    return []
+    import math
+    import numpy as np
+    import scipy.stats as ss
+    out = []
+    u = ss.uniform(loc=-0.3, scale=1.7).rvs(size=(500, 1), random_state=3)
+    out.append(('uniform.rvs(size=(n,1)) has shape (n,1) and lies in [loc, loc+scale]', u.shape == (500, 1) and bool((u >= -0.3).all() and (u <= 1.4).all())))
+    rs = np.random.RandomState(0)
+    A, B, v = rs.normal(size=(3, 3)), rs.normal(size=(3, 4)), rs.normal(size=3)
+    out.append(('np.dot = explicit sum of products', bool(np.allclose(np.dot(A, v), [sum(A[i, k] * v[k] for k in range(3)) for i in range(3)]) and
+                                                          np.allclose(np.dot(A, B), [[sum(A[i, k] * B[k, j] for k in range(3)) for j in range(4)] for i in range(3)]))))
+    out.append(('np.prod = finite product', bool(np.isclose(np.prod(v), v[0] * v[1] * v[2])) and np.prod(np.array([])) == 1.0))
+    Ai = np.linalg.inv(A)
+    out.append(('np.linalg.inv: both products are the identity', bool(np.allclose(Ai @ A, np.eye(3)) and np.allclose(A @ Ai, np.eye(3)))))
+    out.append(('math.isclose = |a-b| <= max(rel_tol*max(|a|,|b|), abs_tol)', math.isclose(0.0, 0.001, abs_tol=.001) and not math.isclose(0.0, 0.0011, abs_tol=.001)
+                and math.isclose(-0.0005, 0.0005, abs_tol=.001)))
+    try:
+        float(np.array([0.5]))
+        out.append(('float() of a 1-D array raises TypeError (installed numpy)', False))
+    except TypeError:
+        out.append(('float() of a 1-D array raises TypeError (installed numpy)', True))
+    out.append(('float(np.squeeze(1-element array)) is the element', float(np.squeeze(np.array([0.5]))) == 0.5))
+    out.append(('np.array of equal-length rows is 2-D, of an empty list 1-D of length 0', np.array([[1.0, 2.0], [3.0, 4.0]]).shape == (2, 2) and np.array([]).shape == (0,)))
+    try:
+        from bounded import c19 as b
+        ok = True
+        for D in (1, 2):
+            v = b.model_prior(D).pdf(np.zeros((1, D)))
+            ok = ok and isinstance(v, np.ndarray) and v.shape == (1,) and abs(float(v[0]) - b.prior_density(D, np.zeros(D))) < 1e-12
+        out.append(('ModelPrior.pdf on a (1, D) batch has shape (1,) and is the product of the marginals', bool(ok)))
+    except Exception as e:
+        out.append(('ModelPrior.pdf on a (1, D) batch has shape (1,) [%s: %s]' % (type(e).__name__, str(e)[:80]), False))
+    return out
+
+
+def bounded(tier, seed):
+    from bounded import c19 as b
+    return b.run(tier, seed)
+
+
+_replay_cache = {}
+
+
+def replay_refuted(cname, rf):
+    """a refuted obligation: look for a failing input of the executable clause on the real code (bounded harness, first failure)"""
+    from bounded import c19 as b
+    if any(k in cname for k in ('_pdf_unnorm_single_point', '_worker_compute_weight', 'RomcPosterior.sample', '_sum_over')):
+        key = 'posterior:' + cname
+        if key not in _replay_cache:
+            fn = 'posterior'
+            for k in ('_pdf_unnorm_single_point', '_worker_compute_weight'):
+                if k in cname:
+                    fn = k
+            if 'RomcPosterior.sample' in cname:
+                fn = 'sample'
+            surr = [True] if 'surrogate' in cname else [False] if 'actual' in cname else [False, True]
+            r = dict(found=False, searched='dims 2, 1, 3; seeds 0-3')
+            for D, sd, su in [(D, sd, su) for D in (2, 1, 3) for sd in range(4) for su in surr]:
+                f = b.check_posterior(dict(function=fn, D=D, seed=sd, N=3, surrogate_used=su, eps=0.8, n2=3))
+                if f:
+                    r = dict(found=True, input=f['input'], observed=f['what'])
+                    break
+            _replay_cache[key] = r
+        return _replay_cache[key]
+    if 'line_search' in cname:
+        key, run = 'ls', b.run_line_search
+    elif 'build' in cname:
+        return dict(found=False, searched='no native harness for the assembly in RegionConstructor.build')
+    else:
+        key, run = 'box', b.run_box
+    if key not in _replay_cache:
+        r = run('thorough', 0, first=True)
+        if r['failures']:
+            f = r['failures'][0]
+            _replay_cache[key] = dict(found=True, input=f['input'], observed=f['what'])
+        else:
+            _replay_cache[key] = dict(found=False, searched=r['bound'], cases=r['cases'])
+    return _replay_cache[key]
+
+
+def replay_input(inp):
+    from bounded import c19 as b
+    return b.replay_input(inp)
